@@ -2,8 +2,9 @@
   Sensitivity of the attribute model of `Model/LocalFS.lean`: the order of `chown` and `chmod` in
   `setPerms` matters.  `chown` of a non-directory clears the set-user-ID bit (and the set-group-ID bit
   when group-execute is set), so `chmod` has to come last — as it does in localfs.go — for the archived
-  set-id bits to survive; a directory keeps its set-group-ID bit across `chown`.  Concrete file systems,
-  everything by evaluation.
+  set-id bits to survive; a directory keeps its set-group-ID bit across `chown`.  Also: the no-follow
+  time stamp call sets a symbolic link's own mtime and leaves the link's target alone.  Concrete file
+  systems, everything by evaluation.
 -/
 import Desync.Model.LocalFS
 
@@ -88,10 +89,32 @@ theorem setPerms_keeps_setuid :
 
 /-- `user.*` extended attributes: accepted on a regular file, refused on a symbolic link (no follow) -/
 theorem user_xattr_on_link_refused :
-    errOf (lsetxattr [([nF], .symlink [47] {})] [nF] [117, 115, 101, 114, 46, 97] [1]) = some .other ∧
+    errOf (lsetxattr [([nF], .symlink [47] {} none)] [nF] [117, 115, 101, 114, 46, 97] [1]) = some .other ∧
     errOf (lsetxattr fsFile [nF] [117, 115, 101, 114, 46, 97] [1]) = none ∧
-    objAfter (lsetxattr [([nF], .symlink [47] {})] [nF] [116, 114, 117, 115, 116, 101, 100, 46, 97] [1]) =
-      some (.symlink [47] { xattrs := [([116, 114, 117, 115, 116, 101, 100, 46, 97], [1])] }) := by
+    objAfter (lsetxattr [([nF], .symlink [47] {} none)] [nF] [116, 114, 117, 115, 116, 101, 100, 46, 97] [1]) =
+      some (.symlink [47] { xattrs := [([116, 114, 117, 115, 116, 101, 100, 46, 97], [1])] } none) := by
+  decide
+
+/-! ### time stamps through and on a symbolic link -/
+
+def nL : Name := [108]                                  -- "l"
+
+/-- a symbolic link "/l" -> "f" (its mtime the kernel's) and a regular file "/f" with mtime 3 -/
+def fsLink : FS := [([nL], .symlink nF {} none), ([nF], .file [97] {} (some 3))]
+
+/-- the file system after a call (`none` when it failed) -/
+def fsAfter (r : Except Err FS) : Option FS :=
+  match r with
+  | .ok fs => some fs
+  | .error _ => none
+
+/-- `lchtimes` (utimensat with AT_SYMLINK_NOFOLLOW) on the link: the link gets the time, the file it points
+    to keeps its own; `chtimes` (os.Chtimes, follows) on the same path: the other way round -/
+theorem lchtimes_sets_link_not_target :
+    fsAfter (lchtimes fsLink [nL] 9) =
+      some [([nL], .symlink nF {} (some 9)), ([nF], .file [97] {} (some 3))] ∧
+    fsAfter (chtimes fsLink [nL] 9) =
+      some [([nF], .file [97] {} (some 9)), ([nL], .symlink nF {} none)] := by
   decide
 
 end Desync.LFS.AttrOrder
